@@ -732,7 +732,17 @@ def valgrind_pass(cx, corpus_dirs, violations, faildir, report_line):
     return info
 
 
+def setup():
+    """bin/setup: build the instrumented library and the three targets"""
+    import types
+    cx = Ctx(types.SimpleNamespace(SAN_ENV={}, SYM_ENV={}), "quick", 0)
+    cx.build()
+    for t in TARGETS:
+        print("built", PID, t)
+
+
 P = {
+    "setup": setup,
     "technique": "coverage-guided fuzzing (libFuzzer, ASan+UBSan+LSan, asserts on) of the three file loaders with a semantic oracle inside each target, a structure-aware token/line mutator, plus deterministic enumeration of every prefix of seed files",
     "level": "exploration",
     "level_text": "exploration: byte strings derived from valid files of every kind (seed corpus of Touchstone 1/2, NPD, .vnacal incl. legacy versions, YAML) by libFuzzer's mutations and a token/line/number/keyword mutator, and every truncation of seed files, are fed to vnadata_fload, vnacal_load and vnaproperty_import_yaml_from_string/_from_file; each result is judged by the oracle in the target (clean failure shape, or self-consistent object that survives save + reload) and by the sanitizers. Right level because the property quantifies over all byte strings: sampling guided by coverage plus exhaustive truncation of seeds is what testing can give.",
